@@ -40,11 +40,10 @@ Theorem C20_idempotent : forall E p v c,
   (forall d, wd E = Some d -> starts_with_slash d = true) -> supported p = true ->
   cleanR E p v = COk c -> cleanR E p c = COk c.
 Proof. intros E p v c W S H. exact (idempotent param_facts accepts_table E C20_source_facts W p v c S H). Qed.
-(* repeatability and purity: the outcome is a function of the declaration, the environment and the value, and nothing
-   else; no state is read or written (that the code mutates neither the value nor the program is what the
-   correspondence observes with deep copies) *)
-Theorem C20_repeatable : forall E p v, cleanR E p v = cleanR E p v.
-Proof. reflexivity. Qed.
+(* Repeatability -- cleaning the same raw value again gives an equal value -- is not a separate theorem: in the model cleanR is
+   a function of the declaration, the environment and the value, and on the code what could make two calls differ is state kept by
+   the parameter object or the program, which C20_clean_is_pure below rules out from the source of every clean() body (and which
+   the history oracle observes: a long-lived parameter object compared with a fresh deep copy on the same call). *)
 
 (* non-vacuity: nested list of numeric text, a relative path, a data-type name, a wrong kind *)
 Example C20_example :
